@@ -7,7 +7,7 @@ generator weighted towards classes spread over roots / fake devices, repeated an
 with the replica rule re-implemented from the property text, compared with the report as sets of sets.
 """
 from . import grp_common as G
-from . import mounts_rt, midrun_rt, nested_rt
+from . import mounts_rt, midrun_rt, nested_rt, links_rt
 
 
 def run(ctx):
@@ -40,6 +40,8 @@ def run(ctx):
     G.process_results(ctx, eng, eng.run_specs(trf))
     # input paths inside other input paths that the outer walk does NOT reach (hidden / ignored directories and files given explicitly)
     nested_rt.nested_unreached_roots_check(ctx, ctx.pick(30, 400), "C03")
+    # --follow-links over hard links and link targets in many spellings: every file (every hard link: a path of its own) exactly once
+    links_rt.follow_alias_check(ctx, ctx.pick(24, 300))
     # several file systems whose files share inode numbers (fresh tmpfs instances in a private mount namespace):
     # the qualifying content classes must be reported completely
     mounts_rt.colliding_inodes_check(ctx, ctx.pick(6, 60), completeness=True)
